@@ -30,6 +30,9 @@ const OPTSETS: &[(&str, &str)] = &[
     ("pipefail", "set -o pipefail\n"),
     ("ERR", "trap 'echo ERR' ERR\n"),
     ("e+ERR", "set -e; trap 'echo ERR' ERR\n"),
+    ("inherit_errexit-only", "shopt -s inherit_errexit\n"),
+    ("inherit_errexit-after-set+e", "set -e; shopt -s inherit_errexit; set +e\n"),
+    ("e+pipefail+inherit_errexit", "set -e -o pipefail; shopt -s inherit_errexit\n"),
 ];
 
 fn leaves_basic() -> Vec<S> {
